@@ -1,10 +1,16 @@
 import BeyondVerif.Model.Ccsds
+import BeyondVerif.Model.CcsdsExt
 import BeyondVerif.Drv.Util
 /-!
 Line protocol for C13:  `c13 <op> <type> <fmt> <message tokens…>`
 
 * `rt`      : `load (dump_fmt m)`                         → `ok <tokens of the loaded message>` | `err <stage> <kind>`
 * `redump`  : `dump_f2 (load (dump_fmt m))` (`fmt` = `kvn>xml` …) → `ok` | `err <stage> <kind>`
+* `stamp <opm|oem|tdm> <TIME_SYSTEM> <scale> <clock µs> <off scale> <off TIME_SYSTEM>` → `<clock written> <label read back>`
+* `window <date µs> <duration µs> <start|median|stop>` → `<start> <stop>` of the maneuver read back | `none`
+* `form <kvn|xml> <form>` → `ok` | `err dump AttributeError`      (OEM writers and the form of the points)
+* `udkey <name>` → the user-defined name the KVN readers recover from the key the writers print | `none`
+* `kepl <0|1>` → what the OPM writers do with a Keplerian impulsive (0) / continuous (1) maneuver: `err dump AttributeError` | `zeros` | `dv`
 
 Free strings travel as opaque tokens (the harness hex-encodes them); numbers as the text the writer
 prints (opaque), except maneuver durations (integer milliseconds).
@@ -194,8 +200,35 @@ def run (type fmt : String) (refmt : Option String) (toks : List String) : Optio
       | some f2 => reply "redump" (tdmOfSets l >>= dumpOnly f2) fun _ => "ok"
   | _ => none
 
+open BeyondVerif.CcsdsExt in
+def ext : List String → Option String
+  | ["stamp", site, msg, scale, clock, offS, offM] => do
+    let c ← clock.toInt?
+    let oS ← offS.toInt?
+    let oM ← offM.toInt?
+    let conv ← (match site with
+      | "opm" => some Generated.opmManScaleConv | "oem" => some Generated.oemPointScaleConv | "tdm" => some Generated.tdmObsScaleConv | _ => none)
+    let off := fun (s : String) => if s = msg then oM else if s = scale then oS else 0
+    let r := readBack msg (written conv off msg ⟨c, scale⟩)
+    pure (toString r.clock ++ " " ++ r.scale)
+  | ["window", date, dur, pos] => do
+    let d ← date.toInt?
+    let u ← dur.toInt?
+    let p ← DatePos.ofString pos
+    pure (match manWindowBack ⟨d, u, p⟩ with
+      | some (a, b) => toString a ++ " " ++ toString b
+      | none => "none")
+  | ["form", fmt, form] => some (if oemDumpForm fmt form then "ok" else "err dump AttributeError")
+  | ["udkey", name] => some (match udKeyIn (udKeyOut name.toList) with
+      | some k => String.ofList k
+      | none => "none")
+  | ["kepl", k] => some (match kepManWritten (k = "1") with
+      | .attrError => "err dump AttributeError" | .zeros => "zeros" | .dv => "dv")
+  | _ => none
+
 def handle : List String → Option String
   | "c13" :: "rt" :: type :: fmt :: toks => some ((run type fmt none toks).getD "bad-op")
+  | "c13" :: "ext" :: toks => some ((ext toks).getD "bad-op")
   | "c13" :: "redump" :: type :: fmt :: f2 :: toks => some ((run type fmt (some f2) toks).getD "bad-op")
   | _ => none
 
